@@ -290,7 +290,7 @@ func (g *gen) run() {
 		}
 	}
 	// (4) random definitions x random settings
-	n := 6
+	n := 4
 	if g.thorough {
 		n = 400
 	}
@@ -340,7 +340,7 @@ func (g *gen) run() {
 			g.addGerror(&c, "gerror:sweep")
 		}
 	}
-	n = 3
+	n = 2
 	if g.thorough {
 		n = 100
 	}
@@ -377,7 +377,8 @@ func (g *gen) run() {
 		return c
 	}
 	g.addGsort(named("", "", orderedBasics), "gsort:named-kinds")
-	g.addGsort(named("String()", "Rank()", append([]string{"bool"}, orderedBasics...)), "gsort:named-kinds")
+	g.addGsort(named("String()", "Rank()", orderedBasics), "gsort:named-kinds")
+	g.addGsort(named("String()", "Rank()", []string{"bool"}), "gsort:named-kinds")
 	// out of domain here (C08 lists named types with a String() accessor): a named bool key
 	// without accessor and an accessor with a bool result; both render `<` on bools
 	{
